@@ -425,7 +425,13 @@ def run_unknown_decodes(ctx, b33, n):
         with_bad = rng.random() < 0.8
         if with_bad:
             # member position only: never directly after a delayed replication (none generated)
-            ids.insert(rng.randrange(0, len(ids) + 1), bad)
+            pos = rng.randrange(0, len(ids) + 1)
+            ids.insert(pos, bad)
+            if rng.random() < 0.35:
+                # the placeholder inside a 221YYY "data not present" span: still reached, still an error
+                back = rng.randrange(0, min(pos, 2) + 1)
+                if not any(100000 <= i < 200000 for i in ids[pos - back:pos + 1]):
+                    ids.insert(pos - back, 221000 + back + rng.randrange(1, 3))
         cases.append((ids, with_bad))
     mouts = lib.run_model(_SCAN_ENV['lines'] + ['tree ' + ' '.join(map(str, ids)) for ids, _ in cases])[len(_SCAN_ENV['lines']):]
     for (ids, with_bad), mo in zip(cases, mouts):
